@@ -9,6 +9,8 @@
 (*              the pre-drawn rows it popped (deque id, row), hash of its  *)
 (*              values, np.random.seed calls since the previous sample of  *)
 (*              its process (value, fingerprint of the seeded state)       *)
+(*   Bulk       all samples of one very long pass, condensed (value hashes,  *)
+(*              row identities, start states of consuming samples)         *)
 (*   Results    price of run 1 and run 2 (rank-encoded)                    *)
 (* A generator state that "has produced samples" is one from which an      *)
 (* earlier PreDraw / Sample started consuming.                             *)
@@ -62,6 +64,16 @@ SeedsStep ==
     /\ Judge(<< <<"NoReseedToUsedState", SeedsOK(E.seeds)>> >>)
     /\ ln' = ln + 1 /\ UNCHANGED <<tid, fin, run, samples, starts, prev>>
 
+\* one pass with very many samples, condensed: distinctness is decided on the sets
+SetOf(s) == {s[i] : i \in 1..Len(s)}
+BulkStep ==
+    /\ More /\ E.e = "Bulk"
+    /\ Judge(<< <<"RunsComplete", E.n = E.want>>,
+                <<"NoReseedToUsedState", Len(E.seeds) = 0>>,
+                <<"NoSharedVariates", Cardinality(SetOf(E.vh)) = E.n /\ Cardinality(SetOf(E.fp0)) = Len(E.fp0)>>,
+                <<"PreDrawnOnce", Cardinality(SetOf(E.rows)) = E.nrows /\ Len(E.rows) = E.nrows>> >>)
+    /\ ln' = ln + 1 /\ UNCHANGED <<tid, fin, run, samples, starts, prev>>
+
 Hashes(s) == [i \in 1..Len(s) |-> s[i].vh]
 ResultsStep ==
     /\ More /\ E.e = "Results"
@@ -77,6 +89,6 @@ Finish ==
     /\ ~fin /\ ln = Len(T) + 1
     /\ IF bad = 0 THEN PrintT(<<"ACCEPT", Id>>) ELSE TRUE
     /\ fin' = TRUE /\ UNCHANGED <<tid, ln, bad, run, samples, starts, prev>>
-TraceNext == RunStep \/ PreDrawStep \/ SampleStep \/ SeedsStep \/ ResultsStep \/ RaiseStep \/ Finish
+TraceNext == RunStep \/ PreDrawStep \/ SampleStep \/ SeedsStep \/ BulkStep \/ ResultsStep \/ RaiseStep \/ Finish
 TraceSpec == TraceInit /\ [][TraceNext]_tvars
 =============================================================================
